@@ -85,6 +85,11 @@ CHECKS = {
    technique="TLA+ statement of the documented JSON schema and of the cross-field consistency rules (Trace_Report.tla, hex strings parsed and subtracted on limbs) evaluated by TLC on every report recorded from the real print_json; lexical validity by from_utf8 + serde_json",
    text="No state space: the specification is a library of predicates (Schema, HexW, Counts, Offsets, CrashingThreadCopy, ModulesMirror) that TLC evaluates on the projected JSON of every report the corpus and the Processor.tla cases produce, with the library's own module list passed alongside for the mirror check.",
    note="Trusted: TLC, Trace_Report.tla (transcription of json-schema.md), the JSON projection in record_process.rs, serde_json for lexical validity. Sampled inputs; function_offset is only bounded by module_offset."),
+ "C20": dict(
+   level="model_checking", design_ref="DESIGN.md section 5 'C20'",
+   technique="TLA+ option machine of minidump-stackwalk (Cli.tla) model-checked by TLC (failing runs are silent, successful runs have exactly one primary report, cyborg output only with --cyborg); every option combination x input class executed on the built binary and compared with reports produced in-process by the library",
+   text="The option space is finite and is enumerated completely by TLC (mode flag sets, --brief, --pretty, --output-file, --features, symbol path spellings, six input classes); for each reachable run the specification gives exit status and the report token per sink. The harness builds the binary from /repo, runs it, and compares exit status, stdout, stderr presence, --output-file and --cyborg contents byte for byte with the library's own print / print_brief / print_json / per-stream prints on the same bytes and options; successful cases are repeated over all valid inputs (repository samples, generated dumps incl. big-endian and an unaligned stack size).",
+   note="Trusted: TLC, Cli.tla, replay_cli.rs (incl. the frozen transcription of the --dump stream order). Inputs are sampled; --log-file, --symbols-url / caches, local debuginfo and TTY progress output are not exercised."),
 }
 
 NA_DEFAULT = "check not built yet (work in progress; DESIGN.md section 5 has the planned specification)"
